@@ -72,11 +72,13 @@ PROPS = {
                   {"engine": "qmodel", "test": "TestProp_C13_LongLockStep", "quick": 48, "thorough": 1600, "shards": {"quick": 8}, "shrinktime": "8s"}],
     },
     "C14": {
-        "rule": "store tier: populations over routes x targets x all five states with tie timestamps, then id-list and by-filter mutations "
+        "rule": "big-list tier: 600-1100 messages, id lists of 255-1001 ids and by-filter limits of 1000 (where implementations work in chunks), judged by the same selector || "
+                "store tier: populations over routes x targets x all five states with tie timestamps, then id-list and by-filter mutations "
                 "(unknown/duplicate/padded ids, contradictory filters, limits -1..1001, before-cursors on ties, preview); independent selector; "
                 "non-trivial = the selection is a strict non-empty subset and an otherwise matching message is in a state the op must not touch",
         "assumptions": [POSTGRES, SAMPLED],
-        "parts": [{"engine": "qmodel", "test": "TestProp_C14_Store", "quick": 3000, "thorough": 400000}],
+        "parts": [{"engine": "qmodel", "test": "TestProp_C14_Store", "quick": 3000, "thorough": 400000},
+                  {"engine": "qmodel", "test": "TestProp_C14_BigLists", "quick": 48, "thorough": 2400, "shards": {"quick": 8}, "shrinktime": "8s"}],
     },
 }
 
